@@ -758,3 +758,37 @@ pub fn pin_to_core(core: usize) {
         libc::sched_setaffinity(0, std::mem::size_of::<libc::cpu_set_t>(), &set);
     }
 }
+
+/// Makes `real` visible at the fixed path `fixed` for this process only (private mount
+/// namespace + bind mount) and returns `fixed`. erg keys its module tables by absolute path
+/// with a non-random hash, so the iteration order of those tables - and with it the sequence of
+/// hook calls - depends on where the project lives: every worker must see its project at the
+/// same path for a seed to mean the same execution on every worker and in a replay.
+/// Must be called before any thread is spawned. Falls back to `real` when the sandbox does not
+/// allow it (then replays are exact only from the same directory).
+pub fn mount_at(real: &str, fixed: &str) -> String {
+    use std::ffi::CString;
+    let c = |s: &str| CString::new(s).unwrap();
+    unsafe {
+        if libc::unshare(libc::CLONE_NEWNS) != 0 {
+            return real.to_string();
+        }
+        let root = c("/");
+        let none = c("none");
+        if libc::mount(
+            none.as_ptr(),
+            root.as_ptr(),
+            std::ptr::null(),
+            libc::MS_REC | libc::MS_PRIVATE,
+            std::ptr::null(),
+        ) != 0
+        {
+            return real.to_string();
+        }
+        let (r, f) = (c(real), c(fixed));
+        if libc::mount(r.as_ptr(), f.as_ptr(), std::ptr::null(), libc::MS_BIND, std::ptr::null()) != 0 {
+            return real.to_string();
+        }
+    }
+    fixed.to_string()
+}
